@@ -46,6 +46,7 @@ PLAN = {
     "C13": [TERM, CONNECT], "C14": [TERM, CONNECT], "C23": [CONNECT, DATA_BPUB, SLEEP], "C24": [CONNECT, DATA_PUB, DATA_CTRL],
     "C34": [SLEEP, CONNECT],
 }
+CLIENT_HALF = ("C06", "C23")     # properties that also speak about the client library
 QUICK_SAMPLE = int(os.environ.get("VERIF_QUICK_SAMPLE", "2500"))     # schedules per MC configuration executed in the quick tier
 SHAPE_CAP = int(os.environ.get("VERIF_SHAPE_CAP", "9000"))           # ... raised to one per schedule shape, up to this many
 
@@ -284,10 +285,20 @@ def run(prop, tier, replay=None):
     scenarios = []
     states = transitions = 0
     mc_info = []
+    client_fut = None
     if replay:
         payload = json.load(open(replay))
+        if payload.get("client_half"):
+            import clientlib
+            return clientlib.run_replay(prop, replay)
         scenarios = [payload["scenario"]] if "scenario" in payload else payload["scenarios"]
     else:
+        if prop in CLIENT_HALF:
+            # the property also speaks about the client library: families/clientlib.py decides that half
+            # (ClientLib.tla + harness/cldrv) while the gateway half runs here
+            from concurrent.futures import ThreadPoolExecutor
+            import clientlib
+            client_fut = ThreadPoolExecutor(max_workers=1).submit(clientlib.run_client_half, prop, tier)
         for k, c in enumerate(PLAN[prop]):
             res, scheds = run_mc(c, tier)
             states += res["distinct"]
@@ -349,6 +360,13 @@ def run(prop, tier, replay=None):
         import sleeprace
         rv, race_cov = sleeprace.run(tier, rnd)
         violations += rv
+    client_cov = None
+    if client_fut:
+        cv, client_cov = client_fut.result()        # a model gap of the client half makes the run inconclusive
+        for v in cv:
+            if isinstance(v.get("replay"), dict):
+                v["replay"]["client_half"] = True
+        violations += cv
     code, n_new, n_known = vlib.verdict(prop, violations)
     sample = None
     if traces:
@@ -364,7 +382,7 @@ def run(prop, tier, replay=None):
                     "(state, connect phase, event type, post-state) combinations exercised on the real code" % prop,
                exhaustive=(tier == "thorough"), mc=mc_info, steps=stat, crashes=len(crashes),
                desync=[d["sig"] for d in desync][:20], exact_output_match=dict(client=stat.get("exactC", 0), broker=stat.get("exactB", 0)),
-               known_findings=n_known, concurrency=race_cov)
+               known_findings=n_known, concurrency=race_cov, client_half=client_cov)
     vlib.write_evidence(prop, tier, "model_checking", cov, time.time() - t0, violations=n_new,
                         assumptions=["A-quiescent: handler invocations are serialised by the step driver",
                                      "A-net: in-memory connections never fail", "A-timer: asynctimerchan=0",
